@@ -897,6 +897,16 @@ func (r *Run) symBinop(g *G, op token.Token, t types.Type, a, b *Term, tb types.
 		if err != nil {
 			res, err = tBitop("&", b, a)
 		}
+		if err != nil && !a.isConst() && !b.isConst() && bounded(a) && bounded(b) && a.lo.Sign() >= 0 && b.lo.Sign() >= 0 {
+			// symbolic & symbolic (non-negative): over-approximated by a fresh value z with
+			// 0 <= z <= min(a, b) (sound for verification: every real result is included)
+			r.auxCounter++
+			z := mkVar(fmt.Sprintf("and~%d", r.auxCounter), a.width, a.signed)
+			z.lo, z.hi = big0, minBig(a.hi, b.hi)
+			r.declareVar(z)
+			r.assertTerm(tAnd(tLeRaw(z, a), tLeRaw(z, b)))
+			res, err = z, nil
+		}
 	case token.OR:
 		res, err = tBitop("|", a, b)
 	case token.XOR:
